@@ -112,8 +112,6 @@ def run(ck):
     scopes = [("Proof::from_bytes", s1)] + verify_scope(prog, an, proof_val)
     ck.floor("functions analysed (total)", an.stats["functions"], 45)
     ck.stats.update({k: v for k, v in an.stats.items()})
-    for k in an.memo:
-        ck.saw(prog.fns[k[0]])
     seen = set()
     for scope, s in scopes:
         for a in s.alarms:
@@ -123,14 +121,19 @@ def run(ck):
             ck.ob("E4", a.key, False,
                   f"{a.what}: {a.key.split('/', 1)[1] if '/' in a.key else a.key} in {a.fn.nname} may fail on untrusted input (scope {scope})",
                   loc=a.loc, detail=(a.detail or "") + " | reached through: " + " -> ".join(prog.fns[c].nname.split("::")[-1] for c in a.chain[-6:]))
-    # discharged obligations as aggregate counts
-    ck.stats["sites"] = an.stats["sites"]
-    ck.stats["discharged_safe"] = an.stats["discharged"]
-    ck.stats["not_attacker_controlled"] = an.stats["untainted"]
-    # record discharged sites as obligations (one per analysed function with sites) so that coverage is visible
-    ck.ob("E4", "summary:sites-examined", True,
-          f"{an.stats['sites']} panic/overflow/bounds/allocation sites examined in {an.stats['functions']} function contexts: "
-          f"{an.stats['discharged']} proved safe, {an.stats['untainted']} not attacker-controlled, {len(seen)} alarmed", loc=None)
+    # the Merkle openings inside the proof: every field of a parsed BatchMerkleProof and the queried positions attacker-controlled
+    from . import c10
+    an_m = Analyzer(prog, max_depth=8, opaque=c10.opaque, path_limit=80000)
+    for scope, s in c10.merkle_scopes(prog, an_m):
+        for a in s.alarms:
+            if a.key not in seen:
+                seen.add(a.key)
+                ck.ob("E4", a.key, False, f"{a.what} in {a.fn.nname} may fail on a malformed opening (scope {scope})", loc=a.loc, detail=a.detail)
+    from ..ranges import report_sites
+    n = report_sites(ck, an)
+    n_m = report_sites(ck, an_m)
+    ck.stats["merkle_sites_safe"] = n_m["safe"]
+    ck.floor("distinct sites proved safe", n["safe"], 35)
     controls(ck, prog)
 
 
